@@ -238,9 +238,9 @@ PROPS = {
         model_limits='re-encodings: `replay_any_encoding_noop_guarded` / `_rejected_guarded` state the property without `Canonical`, for handlers of the shape the code has since round 1 — bytes that are not the canonical serialisation of their parse are refused before anything runs (`Guarded`; tied to the source by the T3 fact `canonical_guard_present` for both entry points) — with `parse t2 = parse t1` as "the same signed content"; the older `replay_any_encoding_noop_partial` (under `Canonical`) is kept. What the shell model cannot see is a second spelling INSIDE the parse (another byte string for the same key or signature): one spelling per key and per signature in the key handlers (ED25519: Go rejects s >= L; SECP256K1: fixed length and low-s rule of Tendermint; BTCEC: compressed key only and low-s DER without trailing bytes since d4987f9 / 9dae7fc) — both exercised by the replay engine (re-encoding classes 0-10 over originals signed with the three algorithms); OLVM transactions additionally rely on the account nonce (only `stNonce > msgNonce` is rejected, S12)'),
     'C06': dict(
         lean_modules=['OLP.Props.C06', 'OLP.Props.C06Facts'], namespaces=['OLP.Props.C06'],
-        required_theorems=['failed_tx_keeps_store', 'failed_tx_noop', 'remove_failed_deliverAll', 'remove_failed_same_block', 'remove_failed_same_block_of_no_hooks', 'remove_failed_instance', 'remove_failed_needs_room', 'failed_tx_starves_later', 'block_room_after_txs', 'deliverer_discipline'],
+        required_theorems=['failed_tx_keeps_store', 'failed_tx_noop', 'remove_failed_deliverAll', 'remove_failed_same_block', 'remove_failed_same_block_of_no_hooks', 'remove_failed_instance', 'remove_failed_former_counterexample_holds', 'failed_tx_starves_later', 'block_room_after_txs', 'hooks_keep_meter', 'deliverer_discipline'],
         run=run_c06, replay=replay_olh('dropfailed'), level='proof', assumptions=SHELL_ASSUME,
-        model_limits='the removal theorems hold for handlers that read the gas level only in the fee step and relative to its start (`RoomBlind`, proved from syntax for every program without a `.gas` node: `roomShiftInv_of_syntax`; instance `remove_failed_instance`) — at block level under the premise that the meter has room after EndBlock in the full block (`remove_failed_needs_room` shows the premise cannot be dropped in the MODEL, whose EndBlock hooks read the metered deliver state; the code runs them unmetered since 359026c, so the model is the more pessimistic of the two); the EVM object cache / journal are volatile cells of the generic model: their rollback on failure is covered by C16/C17 and by the olvm engine that run_c06 runs with its atomicity monitors'),
+        model_limits='the removal theorems hold for handlers that read the gas level only in the fee step and relative to its start (`RoomBlind`, proved from syntax for every program without a `.gas` node: `roomShiftInv_of_syntax`; instance `remove_failed_instance`); no premise on the meter is left: a transaction that did not fail ended below the limit (05efd4a), and the block hooks run unmetered in the model as in the code (359026c, fc77c5a; `hooks_keep_meter`), so that the block whose EndBlock read was starved in the older model now satisfies the conclusion (`remove_failed_former_counterexample_holds`); `failed_tx_starves_later` shows what remains true about the running gas total: a failed transaction can starve a later one, which is then failed and removed as well; the EVM object cache / journal are volatile cells of the generic model: their rollback on failure is covered by C16/C17 and by the olvm engine that run_c06 runs with its atomicity monitors'),
     'C07': dict(
         lean_modules=['OLP.Props.C07', 'OLP.Props.C07Facts'], namespaces=['OLP.Props.C07'],
         required_theorems=['isolation_instance', 'isolation_instance_facts', 'checkTx_keeps_store', 'checktx_isolation', 'unaimed_hook_breaks_isolation', 'check_vset_breaks_isolation', 'begin_hooks_aimed', 'end_hooks_aimed', 'checker_discipline', 'check_path_runs_no_finalisation', 'check_path_statedb_uses'],
